@@ -824,7 +824,13 @@ spifconf_open_file(spif_charptr_t name)
      * whole file, so we don't do that here. */
     fp = fopen((char *) name, "rt");
     REQUIRE_RVAL(fp != NULL, NULL);
-    fgets((char *) buff, 256, fp);
+    if (!fgets((char *) buff, 256, fp)) {
+        /* Nothing to read, so there is no magic string either. */
+        libast_print_warning("%s exists but does not contain the proper magic string (<%s-%s>)\n",
+                             name, libast_program_name, libast_program_version);
+        fclose(fp);
+        return NULL;
+    }
     ver_str = spif_str_new_from_ptr(buff);
 
     /* Check for magic string. */
